@@ -7,23 +7,100 @@
     for every such B, in particular for [repaired_except_pinned] (what the code can become) and for [repaired].
     Unbounded in rank, shape, descriptor contents and 64-bit offsets / counts.
 
-    [idx_spec d p] (inside [slice_hyps] / [pad_ok]) is the C07 statement "converting position p on dimension d
-    returns, for every rule, the index the rule defines": proved for sampled dimensions (C17_sampled_idx_spec),
-    a hypothesis of exactly that shape for set / data-frame / range dimensions. *)
+    The position -> index layer is C07's: the theorems sampled_index_spec, set_index_spec, df_index_spec and
+    range_index_spec are used through [C17_idx_spec_of_wf].  The slice theorems are stated for WELL-FORMED descriptors
+    ([dim_wf]: the premises of the C07 theorems - sampled: finite offset, finite interval > 0, finite coordinates;
+    range: at most 2^53+1 finite STRICTLY ascending ticks; set / data frame: at most 2^53 labels / rows) and ADMISSIBLE
+    positions ([pos_ok] inside [slice_wf]: the positions converted into the dimension's unit are finite, and below 2^52 on
+    set / data-frame dimensions).  No hypothesis about the conversion functions is left.  The more general forms under
+    an abstract [idx_spec] hypothesis are kept as ..._under_idx_spec. *)
 From Coq Require Import ZArith Bool String List Reals.
 From Flocq Require Import Core BinarySingleNaN.
 Require Import NixV.Base.Prelude NixV.Base.F64 NixV.Base.F64Facts NixV.Gen.GenDimensions NixV.Axis.AxisSpec
                NixV.Axis.RangeModel NixV.Axis.SampledProofs NixV.Data.NDIndex NixV.Data.NDArr
                NixV.Access.SliceSwitches NixV.Access.View NixV.Access.Slice NixV.Access.SliceSpec
-               NixV.Access.SliceFacts NixV.Access.ViewProofs NixV.Access.SliceProofs.
+               NixV.Axis.IntAxisProofs NixV.Access.SliceFacts NixV.Access.ViewProofs NixV.Access.SliceProofs NixV.Access.SliceClosed.
 Import ListNotations.
 Local Open Scope Z_scope.
 
 (** * Slices *)
 
+(** the C07 theorems for all four descriptor kinds, in the form the slice theorems use *)
+Theorem C17_idx_spec_of_wf : forall d p, dim_wf d -> pos_ok d p -> idx_spec d p.
+Proof. exact idx_spec_of_wf. Qed.
+Print Assumptions C17_idx_spec_of_wf.
+
+Theorem C17_axis_ok_of_wf : forall d, dim_wf d -> axis_ok d.
+Proof. exact axis_ok_of_wf. Qed.
+Print Assumptions C17_axis_ok_of_wf.
+
 (** model = specification: dataSlice returns the box whose per-dimension index lists are what the brute-force
     evaluator computes, and an error exactly when the evaluator reports one *)
 Theorem C17_slice_meets_spec : forall B dims shape start end_ units rm,
+  slices_repaired B -> slice_wf dims shape start end_ units rm ->
+  (pads_with_positions B = false \/ List.length start = List.length dims) ->
+  match data_slice B dims shape start end_ units rm with
+  | Ok v => spec_slice dims shape start end_ units rm = Ok (box_lists (v_offset v) (v_count v)) /\
+            fits shape (v_offset v) (v_count v) = true
+  | Err _ => exists e, spec_slice dims shape start end_ units rm = Err e
+  | UB _ => False
+  end.
+Proof. exact data_slice_meets_spec_closed. Qed.
+Print Assumptions C17_slice_meets_spec.
+
+(** slice_exact: a returned slice lies in the data; in every specified dimension its extent is exactly the region
+    of the request; every unspecified dimension is included in full *)
+Theorem slice_exact : forall B dims shape start end_ units rm v,
+  slices_repaired B -> slice_wf dims shape start end_ units rm ->
+  (pads_with_positions B = false \/ List.length start = List.length dims) ->
+  data_slice B dims shape start end_ units rm = Ok v ->
+  fits shape (v_offset v) (v_count v) = true /\
+  (forall j d n s e, nth_error dims j = Some d -> nth_error shape j = Some n ->
+     nth_error start j = Some s -> nth_error end_ j = Some e ->
+     exists r o c, spec_req d s e (nth j units None) rm = Ok r /\
+       nth_error (v_offset v) j = Some o /\ nth_error (v_count v) j = Some c /\ 1 <= c /\
+       (forall i, o <= i < o + c <-> region d n r i)) /\
+  (forall j n, (List.length start <= j)%nat -> nth_error shape j = Some n ->
+     nth_error (v_offset v) j = Some 0 /\ nth_error (v_count v) j = Some n).
+Proof. exact slice_exact_closed. Qed.
+Print Assumptions slice_exact.
+
+(** an empty region and a region that leaves the data are refused *)
+Theorem slice_oob_rejected : forall B dims shape start end_ units rm j d n s e r,
+  slices_repaired B -> slice_wf dims shape start end_ units rm ->
+  (pads_with_positions B = false \/ List.length start = List.length dims) ->
+  nth_error dims j = Some d -> nth_error shape j = Some n -> nth_error start j = Some s -> nth_error end_ j = Some e ->
+  spec_req d s e (nth j units None) rm = Ok r ->
+  ((forall i, ~ region d n r i) \/ (exists i, region d n r i /\ ~ (0 <= i < n))) ->
+  exists err, data_slice B dims shape start end_ units rm = Err err.
+Proof. exact slice_oob_rejected_closed. Qed.
+Print Assumptions slice_oob_rejected.
+
+(** with the padding the code has and keeps, an unspecified dimension is returned in full in Inclusive mode: for a
+    well-formed descriptor that covers the data (n <= number of coordinates), n <= 2^52, and - the property's own premise
+    x_(n-1) < x_n, needed only for sampled axes, see C17_end_strict_unsampled - a larger coordinate after the last element *)
+Theorem slice_unspecified_full_inclusive : forall B dims shape start end_ units v j d n,
+  slice_reads_argument_vectors B = false -> slice_point_snaps B = false -> pads_with_positions B = true ->
+  (List.length start <= List.length dims)%nat -> (List.length end_ <= List.length dims)%nat ->
+  (List.length units <= List.length dims)%nat ->
+  data_slice B dims shape start end_ units RangeMatch_Inclusive = Ok v ->
+  (List.length start <= j)%nat -> (List.length end_ <= j)%nat -> (List.length units <= j)%nat ->
+  nth_error dims j = Some d -> nth_error shape j = Some n ->
+  dim_wf d -> 1 <= n <= dim_N d -> n <= P52 -> end_strict d n ->
+  nth_error (v_offset v) j = Some 0 /\ nth_error (v_count v) j = Some n.
+Proof. exact unspecified_full_inclusive_closed. Qed.
+Print Assumptions slice_unspecified_full_inclusive.
+
+Theorem C17_end_strict_unsampled : forall d n, dim_wf d -> 1 <= n ->
+  match d with DSampled _ _ _ => True | _ => end_strict d n end.
+Proof. exact end_strict_unsampled. Qed.
+Print Assumptions C17_end_strict_unsampled.
+
+(** ** the same statements under an abstract hypothesis about the conversion functions *)
+
+(** model = specification: dataSlice returns the box whose per-dimension index lists are what the brute-force
+    evaluator computes, and an error exactly when the evaluator reports one *)
+Theorem C17_slice_meets_spec_under_idx_spec : forall B dims shape start end_ units rm,
   slices_repaired B -> slice_hyps dims shape start end_ units rm ->
   (pads_with_positions B = false \/ List.length start = List.length dims) ->
   match data_slice B dims shape start end_ units rm with
@@ -33,7 +110,7 @@ Theorem C17_slice_meets_spec : forall B dims shape start end_ units rm,
   | UB _ => False
   end.
 Proof. exact data_slice_meets_spec. Qed.
-Print Assumptions C17_slice_meets_spec.
+Print Assumptions C17_slice_meets_spec_under_idx_spec.
 
 (** the evaluator's answer read as the property states it: the indices whose coordinates lie in [start, end]
     (inclusive) or [start, end) (exclusive), provided there is one and all lie in the data; an error otherwise *)
@@ -50,7 +127,7 @@ Print Assumptions C17_spec_dim_exact.
 
 (** slice_exact: a returned slice lies in the data; in every specified dimension its extent is exactly the region
     of the request; every unspecified dimension is included in full *)
-Theorem slice_exact : forall B dims shape start end_ units rm v,
+Theorem slice_exact_under_idx_spec : forall B dims shape start end_ units rm v,
   slices_repaired B -> slice_hyps dims shape start end_ units rm ->
   (pads_with_positions B = false \/ List.length start = List.length dims) ->
   data_slice B dims shape start end_ units rm = Ok v ->
@@ -63,10 +140,10 @@ Theorem slice_exact : forall B dims shape start end_ units rm v,
   (forall j n, (List.length start <= j)%nat -> nth_error shape j = Some n ->
      nth_error (v_offset v) j = Some 0 /\ nth_error (v_count v) j = Some n).
 Proof. exact slice_exact_thm. Qed.
-Print Assumptions slice_exact.
+Print Assumptions slice_exact_under_idx_spec.
 
 (** with the padding the code has and keeps, an unspecified dimension is returned in full in Inclusive mode *)
-Theorem slice_unspecified_full_inclusive : forall B dims shape start end_ units v j d n,
+Theorem slice_unspecified_full_inclusive_under_idx_spec : forall B dims shape start end_ units v j d n,
   slice_reads_argument_vectors B = false -> slice_point_snaps B = false -> pads_with_positions B = true ->
   (List.length start <= List.length dims)%nat -> (List.length end_ <= List.length dims)%nat ->
   (List.length units <= List.length dims)%nat ->
@@ -76,7 +153,7 @@ Theorem slice_unspecified_full_inclusive : forall B dims shape start end_ units 
   (forall s e, pad_start true d = Ok s -> pad_end true d shape j = Ok e -> pad_ok d n s e) ->
   nth_error (v_offset v) j = Some 0 /\ nth_error (v_count v) j = Some n.
 Proof. exact unspecified_full_inclusive. Qed.
-Print Assumptions slice_unspecified_full_inclusive.
+Print Assumptions slice_unspecified_full_inclusive_under_idx_spec.
 
 (** ... and in Exclusive mode it loses its last element: the pinned open finding (DESIGN.md appendix B.3,
     testFlexibleTagging).  4 x 5 array, first dimension given: the code returns 4 of the 5 elements of the second. *)
@@ -97,7 +174,7 @@ Proof. exact start_gt_end_rejected. Qed.
 Print Assumptions slice_start_gt_end_rejected.
 
 (** an empty region and a region that leaves the data are refused *)
-Theorem slice_oob_rejected : forall B dims shape start end_ units rm j d n s e r,
+Theorem slice_oob_rejected_under_idx_spec : forall B dims shape start end_ units rm j d n s e r,
   slices_repaired B -> slice_hyps dims shape start end_ units rm ->
   (pads_with_positions B = false \/ List.length start = List.length dims) ->
   nth_error dims j = Some d -> nth_error shape j = Some n -> nth_error start j = Some s -> nth_error end_ j = Some e ->
@@ -105,7 +182,7 @@ Theorem slice_oob_rejected : forall B dims shape start end_ units rm j d n s e r
   ((forall i, ~ region d n r i) \/ (exists i, region d n r i /\ ~ (0 <= i < n))) ->
   exists err, data_slice B dims shape start end_ units rm = Err err.
 Proof. exact slice_oob_rejected_thm. Qed.
-Print Assumptions slice_oob_rejected.
+Print Assumptions slice_oob_rejected_under_idx_spec.
 
 (** the complete path of the drivers - dataSlice, then DataView::getData of the whole view, on the array that holds
     its own flat indices - delivers the specification's element ids in the specification's (row-major) order *)
@@ -215,6 +292,19 @@ Theorem rescale_invariant_slice : forall B dims shape start end_ units start' en
   data_slice B dims shape start' end' units' rm = data_slice B dims shape start end_ units rm.
 Proof. exact rescale_invariant_thm. Qed.
 Print Assumptions rescale_invariant_slice.
+
+(** ... and for any number k <= rank of given positions *)
+Theorem rescale_invariant_slice_partial : forall B dims shape start end_ units start' end' units' rm,
+  slice_reads_argument_vectors B = false -> slice_point_snaps B = false ->
+  List.length start' = List.length start -> List.length end' = List.length end_ -> List.length units' = List.length units ->
+  List.length end_ = List.length start -> List.length units = List.length start ->
+  (forall j d s' e' u' s e u, nth_error dims j = Some d ->
+     nth_error start' j = Some s' -> nth_error end' j = Some e' -> nth_error units' j = Some u' ->
+     nth_error start j = Some s -> nth_error end_ j = Some e -> nth_error units j = Some u ->
+     rescaled_dim d s' e' u' s e u) ->
+  data_slice B dims shape start' end' units' rm = data_slice B dims shape start end_ units rm.
+Proof. exact rescale_invariant_partial. Qed.
+Print Assumptions rescale_invariant_slice_partial.
 
 (** getSIScaling = quotient of the prefix factors, for all 21 x 21 prefix pairs of the generated table *)
 Theorem C18_si_scaling_fdiv : forall pa pb b, In pa known_prefixes -> In pb known_prefixes ->
@@ -368,7 +458,7 @@ Example C17_view_examples :
 Proof. exact view_repaired_examples. Qed.
 Print Assumptions C17_view_examples.
 
-(** * The open obligation: the library under test has the repaired behaviour.  Fails until the proposed patches
-    (notes/proposed-fixes/C17-*.patch) have landed and [current_behaviour] has been switched. *)
+(** * The library under test has the repaired behaviour (the patches landed as 08a7783, 956fa36, cf8bb07); this
+    theorem breaks if the model driver is switched back to a defective behaviour *)
 Theorem current_is_repaired : current_behaviour = repaired_except_pinned.
 Proof. reflexivity. Qed.
